@@ -12,7 +12,7 @@ ID = "C19"
 LEVEL = "exploration"
 RUNS = {"quick": 1300, "thorough": 24000}
 CHUNK = {"quick": 10, "thorough": 40}
-PROBES = ["multi_frame_post", "identity_probe", "client_restarted", "same_command_3_times", "task_lost_in_flight_seen", "multi_client", "noise_on_wire", "metadata_cache_hit_possible",
+PROBES = ["late_registration", "multi_frame_post", "identity_probe", "client_restarted", "same_command_3_times", "task_lost_in_flight_seen", "multi_client", "noise_on_wire", "metadata_cache_hit_possible",
           "op_mask", "op_base64", "op_base64url", "op_netbios", "op_netbiosu", "op_prepend", "op_append", "op_header",
           "op_parameter", "op_print", "op_uri_append", "op__header", "op__parameter", "peer_unpadded_base64url",
           "client_crashed_on_corrupt_response", "handler_on_kth_task_k>=3"]
